@@ -31,7 +31,9 @@ ID = "C04"
 LEVEL = "exploration"
 RULE = ("Hypothesis-generated installations x generated calls, plus exhaustive grids (all temperatures on the 0.05 grid "
         "from min-3 to max+3, all damper values, all enum arguments) on generated installations; non-trivial: the call is "
-        "accepted and its frame carries a non-keep field; distinct by (installation, call)")
+        "accepted and its frame carries a non-keep field; distinct by (installation, call)."
+        " Metamorphic: the last accepted calls repeated (a) alone on a fresh client, (b) as a burst on a fresh client whose link is down "
+        "(all pending together, transmitted after the reconnection) must produce the frames they produced in the sequence.")
 ASSUMPTIONS = ["zone set-points are generated inside 10..35 degC (the encodable range of both protocols)",
                "undocumented timer / quick-timer frames are read with the layout stated in the module docstrings"]
 
